@@ -93,6 +93,42 @@ def judge(case, part):
             kind = "rejection-reported-but-not-expected" if ("err" in reader_events or raised) and not rejects else (
                 "rejection-expected-but-not-reported" if rejects and "err" not in reader_events and not raised else "rows-differ")
             part.fail(tag % ("rows-%s:%s" % (mode, kind)), case, {"rows": expected, "raised": expected_raised}, {"rows": reader_events, "raised": raised})
+    # one Reader object iterated several times (the source rewound in between): every pass obeys the same rule
+    for mode in c06.MODES:
+        cid = readermachine.make_cid(config, decls)
+        source, _ = readermachine.store(config, decls, table)
+        reader = cutplace.Reader(cid, source, on_error=mode, validate_until=limit)
+        for pass_number in (1, 2, 3):
+            source.seek(0)
+            reader_events, raised = [], None
+            try:
+                if pass_number == 2 and not rejects:
+                    reader.validate_rows()
+                    reader_events = None
+                else:
+                    for item in reader.rows():
+                        reader_events.append("err" if isinstance(item, Exception) else list(item))
+            except errors.DataError as error:
+                raised = type(error).__name__
+            except Exception as error:
+                raised = "foreign:" + type(error).__name__
+            part.transitions += 1
+            part.validated += 1
+            if rejects:
+                expected = [list(r) for r in data_rows]
+                if mode == "yield":
+                    expected[bad_index] = "err"
+                elif mode == "continue":
+                    del expected[bad_index]
+                else:
+                    expected = expected[:bad_index]
+                expected_raised = "any" if mode == "raise" else None
+            else:
+                expected = None if pass_number == 2 else [list(r) for r in data_rows]
+                expected_raised = None
+            if reader_events != expected or (None if raised is None else "any") != expected_raised:
+                part.fail(tag % ("reader-pass-%d-%s:differs" % (pass_number, mode)), case, {"rows": expected, "raised": expected_raised}, {"rows": reader_events, "raised": raised})
+        reader.close()
     # validate API
     cid = readermachine.make_cid(config, decls)
     source, _ = readermachine.store(config, decls, table)
